@@ -95,7 +95,6 @@ CONSTANTS Modes,        \* subset of AllModes
 VARIABLES Mode, obj, phase, st
 vars == <<Mode, obj, phase, st>>
 AllModes == {"decode", "apply", "errors", "relr", "relrset", "dyn"}
-DevModes == {"decode"}
 
 Wsz(cls) == cls \div 8
 
